@@ -241,6 +241,15 @@ pub fn run(args: &[Val]) -> Val {
             peer_open = false;
             std::thread::sleep(Duration::from_millis(30));
         }
+        "peer_halfclose" => {
+            // the peer sends the first k bytes of a request (none for k = 0), closes only its sending side and keeps
+            // reading: the daemon stops serving, and the peer must then observe end-of-stream without anybody calling wait()
+            if k > 0 {
+                let _ = peer.write_all(&set_features[..k.min(19)]);
+            }
+            let _ = peer.shutdown(std::net::Shutdown::Write);
+            std::thread::sleep(Duration::from_millis(30));
+        }
         "invalid_request" => {
             // a header the server rejects: unknown request code / oversized body
             let bad = if k % 2 == 0 { hdr(0, 1, 0) } else { hdr(2, 1, 0x2000) };
